@@ -82,6 +82,13 @@ func init() {
 			n := new(big.Int).Mul(big.NewInt(int64(d)), cof)
 			keys = append(keys, key{n, 65537, fmt.Sprintf("d=%d * prime cofactor", d), 0})
 		}
+		// tiny moduli: every n up to 800 by itself (a modulus that IS a small prime, or smaller than the primes tried first)
+		for n := int64(2); n <= 800; n++ {
+			if tier() != "thorough" && n > 40 && !big.NewInt(n).ProbablyPrime(10) && n%11 != 0 {
+				continue
+			}
+			keys = append(keys, key{big.NewInt(n), 65537, fmt.Sprintf("modulus %d", n), 0})
+		}
 		// primes just above 751 as only small factor
 		for _, p := range []int64{757, 761, 769, 773, 787, 797, 809, 811} {
 			keys = append(keys, key{new(big.Int).Mul(big.NewInt(p), cof), 65537, fmt.Sprintf("p=%d * cofactor", p), 0})
@@ -334,6 +341,20 @@ func init() {
 			}
 		}
 		out.Data["blackbox_rejected_upto_2000"] = len(bb)
+		// exact, for every modulus up to 6000 (small enough to be one of the primes tried, or smaller than some of them)
+		for n := int64(2); n <= 6000; n++ {
+			has := false
+			for d := int64(2); d < 752 && d <= n; d++ {
+				if n%d == 0 {
+					has = true
+					break
+				}
+			}
+			if got := util.PrimeNoSmallerThan752(big.NewInt(n)); got == has {
+				out.Violate("C16|small-factor-test-wrong", fmt.Sprintf("PrimeNoSmallerThan752(%d) = %v, but %d has %s factor below 752", n, got, n, map[bool]string{true: "a", false: "no"}[has]), map[string]interface{}{"modulus": n}, !has, got)
+				break
+			}
+		}
 		// the trial division itself, against exact arithmetic, for many cofactors of every size per divisor (a fast path
 		// that is right for most residues is still wrong): every prime below 752 times cofactors of 1..2048 bits, and
 		// moduli without small factors
